@@ -545,7 +545,17 @@ func ruleP10Accessors(p *Prog, r *Report) {
 			if !ok || typeNameOf(fa.X.Type()) != "ErrorView" {
 				return
 			}
-			n, recv, _, _ := methodCall(st.Val)
+			val := st.Val
+			if isIntType(val.Type()) {
+				if pl := polyOf(val); pl.C == 0 && len(pl.Terms) == 1 {
+					for k, c := range pl.Terms {
+						if c == 1 {
+							val = pl.leafV[k]
+						}
+					}
+				}
+			}
+			n, recv, _, _ := methodCall(val)
 			coll := rangeElemOf(recv)
 			if want[fieldName(fa)] == n && coll != nil && strip(coll) == ssa.Value(tev.Params[0]) {
 				got[fieldName(fa)] = true
